@@ -143,7 +143,13 @@ func (r *Runner) checkSyncPolicy(i int, op *Op) {
 					touched[e.Ino] = e.Path
 				}
 			}
-			for ino, p := range touched {
+			tinos := make([]int, 0, len(touched))
+			for ino := range touched {
+				tinos = append(tinos, ino)
+			}
+			sort.Ints(tinos)
+			for _, ino := range tinos {
+				p := touched[ino]
 				f := r.FS.Live.Inodes[ino]
 				if f == nil {
 					continue
@@ -467,11 +473,26 @@ func (r *Runner) checkHint() {
 			return
 		}
 	}
+	var orphan []ent
 	for e, n := range want {
 		if n != 0 {
-			r.fail("record-without-hint", "", "merged record (key %q, file %d, block %d, offset %d) has no hint entry", e.key, e.fid, e.block, e.off)
-			return
+			orphan = append(orphan, e)
 		}
+	}
+	if len(orphan) > 0 {
+		sort.Slice(orphan, func(a, b int) bool {
+			x, y := orphan[a], orphan[b]
+			if x.fid != y.fid {
+				return x.fid < y.fid
+			}
+			if x.block != y.block {
+				return x.block < y.block
+			}
+			return x.off < y.off
+		})
+		e := orphan[0]
+		r.fail("record-without-hint", "", "merged record (key %q, file %d, block %d, offset %d) has no hint entry", e.key, e.fid, e.block, e.off)
+		return
 	}
 	// (writers that ran next to the merge may have superseded or deleted what it rewrote: the hint then still has to
 	// index the merged files faithfully, but not the live mapping)
